@@ -249,6 +249,7 @@ def shape_chains(rng, count):
         mixed = rng.random() < 0.5
         k0 = rng.choice((FS, SS, SF, FF))
         kind = (lambda: rng.choice((FS, SS, SF, FF))) if mixed else (lambda: k0)
+        same_work = rng.choice([0, 0, 1, 2])      # all tasks equally long: linked tasks reach zero together
         tasks = []
         for i in range(n):
             if fam == "chain":
@@ -264,7 +265,7 @@ def shape_chains(rng, count):
                 deps = [[j, kind()] for j in range(n - 1)] if i == n - 1 else []
             else:
                 deps = [[0, kind()]] if i else []
-            tasks.append(_simple_task(i, rng.choice([1, 1, 2, 3]), deps, auto=rng.random() < 0.1))
+            tasks.append(_simple_task(i, (same_work if same_work else rng.choice([1, 1, 2, 3])), deps, auto=rng.random() < 0.1))
         workers = [_worker(0, i, {"t%d" % i: 1.0}) for i in range(n)]
         teams = [dict(name="team0", id="TM0", targets=list(range(n)), workers=workers)]
         out.append(dict(tasks=tasks, comps=[], wps=[], teams=teams,
